@@ -28,6 +28,24 @@ TLA_CP = TLA_JAR + ":/opt/veriftools/tla/CommunityModules-deps.jar"
 NCPU = os.cpu_count() or 4
 
 
+def zoekt_panic(out):
+    """If a driver process died from a Go panic whose innermost non-runtime frame is code of the
+    repository under test (not a driver file added by the overlay), return (message, function): the
+    real code crashed on input the driver built with the real code.  Otherwise None."""
+    i = out.find("panic: ")
+    if i < 0 or "[recovered]" in out[i:i + 200] and "zz_verif_" in out[i:i + 3000].split("\n\n")[0]:
+        pass
+    if i < 0:
+        return None
+    msg = out[i + 7:].split("\n", 1)[0][:200]
+    frames = re.findall(r"^(github\.com/sourcegraph/zoekt\S*)\(.*\n\t(\S+?):(\d+)", out[i:], re.M)
+    for fn, path, _ in frames:
+        if "/internal/verifkit" in fn or "zz_verif_" in path:
+            return None          # the driver itself is the innermost frame
+        return msg, fn.rsplit("/", 1)[-1]
+    return None
+
+
 class Inconclusive(Exception):
     pass
 
